@@ -330,7 +330,7 @@ mismatch between values and axes""".format(inferred, self.values.shape)
     @values.setter
     def values(self, newvalues):
         self._values = _maybe_cast_type(self._values, newvalues)
-        self._values[:] = newvalues
+        self._values[...] = newvalues
 
     @property
     def axes(self):
